@@ -360,3 +360,234 @@ Section SeriesLemmas.
       change (fs_pow a (S e)) with (fs_mul a (fs_pow a e)). ring.
   Qed.
 End SeriesLemmas.
+
+(* ===================================================== composition lemmas *)
+Section SeriesCompose.
+  Context {F : Type} `{FL : FieldLaws F}.
+  Local Open Scope F_scope.
+  Add Field FSer2 : fth.
+  Add Ring FSring2 : fs_ring_theory.
+  Local Notation fs := (@fs F).
+  Local Notation series := (@series F).
+  Local Notation poly := (@poly F).
+  Local Infix "==" := fs_eq (at level 70).
+
+  (* ------------------------------------------------------- finite sums *)
+  Definition fs_sum (l : list fs) : fs := fold_right fs_add (fs_const 0) l.
+
+  Lemma fs_sum_ext {A} (g h : A -> fs) l :
+    (forall x, In x l -> g x == h x) -> fs_sum (map g l) == fs_sum (map h l).
+  Proof.
+    induction l as [|x l IH]; intro E; simpl; [reflexivity|].
+    rewrite (E x) by (left; reflexivity). rewrite IH by (intros y Hy; apply E; right; exact Hy).
+    reflexivity.
+  Qed.
+  Lemma fs_sum_add {A} (g h : A -> fs) l :
+    fs_sum (map (fun x => fs_add (g x) (h x)) l) == fs_add (fs_sum (map g l)) (fs_sum (map h l)).
+  Proof. induction l as [|x l IH]; simpl; [ring|]. rewrite IH. ring. Qed.
+  Lemma fs_sum_mul_l {A} c (g : A -> fs) l :
+    fs_sum (map (fun x => fs_mul c (g x)) l) == fs_mul c (fs_sum (map g l)).
+  Proof. induction l as [|x l IH]; simpl; [ring|]. rewrite IH. ring. Qed.
+  Lemma fs_sum_zero {A} (l : list A) : fs_sum (map (fun _ => fs_const 0) l) == fs_const 0.
+  Proof. induction l as [|x l IH]; simpl; [reflexivity|]. rewrite IH. ring. Qed.
+
+  (* ------------------------------------------------ structure of compose *)
+  Lemma fs_compose_nil env : fs_compose env [] = fs_const 0.
+  Proof. reflexivity. Qed.
+  Lemma fs_compose_cons env m p :
+    fs_compose env (m :: p) = fs_add (fs_mono env m) (fs_compose env p).
+  Proof. reflexivity. Qed.
+  Lemma fs_compose_app env p q :
+    fs_compose env (p ++ q) == fs_add (fs_compose env p) (fs_compose env q).
+  Proof.
+    induction p as [|m p IH]; simpl.
+    - change (fs_compose env q == fs_add (fs_const 0) (fs_compose env q)). ring.
+    - change (fs_add (fs_mono env m) (fs_compose env (p ++ q))
+              == fs_add (fs_add (fs_mono env m) (fs_compose env p)) (fs_compose env q)).
+      rewrite IH. ring.
+  Qed.
+
+  (* --------------------------------------------- the constant coefficient *)
+  Lemma fs_mul_at0 (a b : fs) : fs_mul a b 0%nat = a 0%nat * b 0%nat.
+  Proof. unfold fs_mul. simpl. ring. Qed.
+  Lemma fs_pow_at0 (a : fs) e : fs_pow a e 0%nat = fpow (a 0%nat) e.
+  Proof. induction e as [|e IH]; simpl; [reflexivity|]. rewrite fs_mul_at0, IH. reflexivity. Qed.
+  Lemma fs_exps_at0 (env : list fs) es :
+    fs_exps env es 0%nat = eval_exps (map (fun a => a 0%nat) env) es.
+  Proof.
+    revert es. induction env as [|x env IH]; intros [|e es]; simpl; try reflexivity.
+    rewrite fs_mul_at0, fs_pow_at0, IH. reflexivity.
+  Qed.
+  (* composing and reading off the constant term = plain evaluation *)
+  Lemma fs_compose_at0 (env : list fs) (p : poly) :
+    fs_compose env p 0%nat = eval_poly (map (fun a => a 0%nat) env) p.
+  Proof.
+    induction p as [|m p IH]; simpl; [reflexivity|].
+    unfold fs_add at 1. unfold eval_poly in IH. rewrite IH.
+    unfold fs_mono, fs_scale, eval_mono. rewrite fs_exps_at0. reflexivity.
+  Qed.
+
+  (* --------------------------------------------------- prefix dependence *)
+  (* coefficients below N agree *)
+  Definition agreeN (N : nat) (a b : fs) : Prop := forall i, i < N -> a i = b i.
+
+  Lemma agreeN_refl N a : agreeN N a a.
+  Proof. intros i _. reflexivity. Qed.
+  Lemma agreeN_le N M a b : M <= N -> agreeN N a b -> agreeN M a b.
+  Proof. intros HM E i Hi. apply E. lia. Qed.
+  Lemma fs_eq_agreeN N a b : a == b -> agreeN N a b.
+  Proof. intros [E] i _. apply E. Qed.
+
+  Lemma fs_mul_agreeN N a a' b b' :
+    agreeN N a a' -> agreeN N b b' -> agreeN N (fs_mul a b) (fs_mul a' b').
+  Proof.
+    intros Ea Eb n Hn. unfold fs_mul. apply vsum_ext. intros i Hi.
+    rewrite Ea by lia. rewrite Eb by lia. reflexivity.
+  Qed.
+  Lemma fs_add_agreeN N a a' b b' :
+    agreeN N a a' -> agreeN N b b' -> agreeN N (fs_add a b) (fs_add a' b').
+  Proof. intros Ea Eb n Hn. unfold fs_add. rewrite Ea, Eb by exact Hn. reflexivity. Qed.
+  Lemma fs_scale_agreeN N c a a' : agreeN N a a' -> agreeN N (fs_scale c a) (fs_scale c a').
+  Proof. intros Ea n Hn. unfold fs_scale. rewrite Ea by exact Hn. reflexivity. Qed.
+  Lemma fs_pow_agreeN N a a' e : agreeN N a a' -> agreeN N (fs_pow a e) (fs_pow a' e).
+  Proof.
+    intro Ea. induction e as [|e IH]; simpl; [apply agreeN_refl|].
+    apply fs_mul_agreeN; assumption.
+  Qed.
+  Lemma fs_exps_agreeN N (env env' : list fs) es :
+    Forall2 (agreeN N) env env' -> agreeN N (fs_exps env es) (fs_exps env' es).
+  Proof.
+    intro E. revert es. induction E as [|x x' env env' Ex E IH]; intros [|e es]; simpl;
+      try apply agreeN_refl.
+    apply fs_mul_agreeN; [apply fs_pow_agreeN; exact Ex|apply IH].
+  Qed.
+  (* coefficient n of a composition depends only on the coefficients <= n of the arguments *)
+  Lemma fs_compose_agreeN N (env env' : list fs) (p : poly) :
+    Forall2 (agreeN N) env env' -> agreeN N (fs_compose env p) (fs_compose env' p).
+  Proof.
+    intro E. induction p as [|m p IH]; simpl; [apply agreeN_refl|].
+    apply fs_add_agreeN; [|exact IH].
+    unfold fs_mono. apply fs_scale_agreeN. apply fs_exps_agreeN. exact E.
+  Qed.
+
+  (* ------------------------ the truncated list operations compute the above *)
+  Lemma sget_sconst N c : agreeN N (sget (sconst N c)) (fs_const c).
+  Proof. intros n Hn. unfold sconst. apply sget_mkv. exact Hn. Qed.
+  Lemma sget_smul N a b : agreeN N (sget (smul N a b)) (fs_mul (sget a) (sget b)).
+  Proof. intros n Hn. unfold smul. apply sget_mkv. exact Hn. Qed.
+  Lemma sget_sadd N a b : agreeN N (sget (sadd N a b)) (fs_add (sget a) (sget b)).
+  Proof. intros n Hn. unfold sadd. apply sget_mkv. exact Hn. Qed.
+  Lemma sget_ssub N a b : agreeN N (sget (ssub N a b)) (fs_sub (sget a) (sget b)).
+  Proof. intros n Hn. unfold ssub. apply sget_mkv. exact Hn. Qed.
+  Lemma sget_sscale N c a : agreeN N (sget (sscale N c a)) (fs_scale c (sget a)).
+  Proof. intros n Hn. unfold sscale. apply sget_mkv. exact Hn. Qed.
+  Lemma sget_strunc N a : agreeN N (sget (strunc N a)) a.
+  Proof. intros n Hn. unfold strunc. apply sget_mkv. exact Hn. Qed.
+  Lemma sget_stime N t0 : agreeN N (sget (stime N t0)) (fs_time t0).
+  Proof. intros n Hn. unfold stime. apply sget_mkv. exact Hn. Qed.
+
+  Lemma agreeN_trans N a b c : agreeN N a b -> agreeN N b c -> agreeN N a c.
+  Proof. intros E1 E2 i Hi. rewrite E1 by exact Hi. apply E2. exact Hi. Qed.
+
+  Lemma sget_spow N a e : agreeN N (sget (spow N a e)) (fs_pow (sget a) e).
+  Proof.
+    induction e as [|e IH]; simpl; [apply sget_sconst|].
+    eapply agreeN_trans; [apply sget_smul|].
+    apply fs_mul_agreeN; [apply agreeN_refl|exact IH].
+  Qed.
+  Lemma sget_sexps N (env : list series) es :
+    agreeN N (sget (sexps N env es)) (fs_exps (map sget env) es).
+  Proof.
+    revert es. induction env as [|x env IH]; intros [|e es]; simpl; try apply sget_sconst.
+    eapply agreeN_trans; [apply sget_smul|].
+    apply fs_mul_agreeN; [apply sget_spow|apply IH].
+  Qed.
+  (* jet on a polynomial program = composition of formal power series, truncated *)
+  Lemma sget_scompose N (env : list series) (p : poly) :
+    agreeN N (sget (scompose N env p)) (fs_compose (map sget env) p).
+  Proof.
+    induction p as [|m p IH]; simpl; [apply sget_sconst|].
+    eapply agreeN_trans; [apply sget_sadd|].
+    apply fs_add_agreeN; [|exact IH].
+    unfold smono, fs_mono. eapply agreeN_trans; [apply sget_sscale|].
+    apply fs_scale_agreeN. apply sget_sexps.
+  Qed.
+
+  (* ----------------------------------------------------------- chain rule *)
+  (* d/dx_v of the monomial x^es, composed with env *)
+  Definition dexps (env : list fs) (es : list nat) (v : nat) : fs :=
+    match dec_at v es with
+    | None => fs_const 0
+    | Some (k, es') => fs_scale (fnat k) (fs_exps env es')
+    end.
+
+  Lemma fs_D_exps (env : list fs) es :
+    fs_D (fs_exps env es)
+    == fs_sum (map (fun v => fs_mul (dexps env es v) (fs_D (nth v env (fs_const 0))))
+                   (seq 0 (length env))).
+  Proof.
+    revert es. induction env as [|x env IH]; intros es.
+    - simpl. destruct es; apply fs_D_const.
+    - destruct es as [|e es].
+      + simpl fs_exps. rewrite fs_D_const.
+        rewrite (fs_sum_ext _ (fun _ => fs_const 0)).
+        * symmetry. apply fs_sum_zero.
+        * intros v _. unfold dexps. destruct v; simpl; ring.
+      + simpl fs_exps. simpl length. rewrite <- cons_seq, <- seq_shift.
+        rewrite map_cons, map_map. simpl fs_sum. rewrite fs_D_mul.
+        (* the terms v = S v' *)
+        rewrite (fs_sum_ext
+                   (fun v' => fs_mul (dexps (x :: env) (e :: es) (S v'))
+                                     (fs_D (nth v' env (fs_const 0))))
+                   (fun v' => fs_mul (fs_pow x e)
+                                     (fs_mul (dexps env es v') (fs_D (nth v' env (fs_const 0)))))).
+        2:{ intros v' _. unfold dexps. simpl dec_at.
+            destruct (dec_at v' es) as [[k r]|].
+            - simpl fs_exps. rewrite !fs_scale_mul. ring.
+            - ring. }
+        rewrite fs_sum_mul_l. rewrite <- IH.
+        (* the term v = 0 *)
+        unfold dexps at 1. simpl dec_at. simpl nth.
+        destruct e as [|e'].
+        * simpl fs_pow. rewrite fs_D_const. ring.
+        * rewrite fs_D_pow. simpl fs_exps. rewrite !fs_scale_mul. ring.
+  Qed.
+
+  Lemma fs_compose_diff_mono (env : list fs) v (m : @mono F) :
+    fs_compose env (match diff_mono v m with None => [] | Some m' => [m'] end)
+    == fs_scale (fst m) (dexps env (snd m) v).
+  Proof.
+    unfold diff_mono, dexps. destruct (dec_at v (snd m)) as [[k es']|].
+    - rewrite fs_compose_cons, fs_compose_nil. unfold fs_mono. simpl fst. simpl snd.
+      rewrite !fs_scale_mul, fs_const_mul. ring.
+    - rewrite fs_compose_nil, fs_scale_mul. ring.
+  Qed.
+
+  (* D (p o env) = sum_v ((d p / d x_v) o env) * D env_v *)
+  Theorem fs_D_compose (env : list fs) (p : poly) :
+    fs_D (fs_compose env p)
+    == fs_sum (map (fun v => fs_mul (fs_compose env (diff_poly v p))
+                                    (fs_D (nth v env (fs_const 0))))
+                   (seq 0 (length env))).
+  Proof.
+    induction p as [|m p IH].
+    - rewrite fs_compose_nil, fs_D_const.
+      rewrite (fs_sum_ext _ (fun _ => fs_const 0)).
+      + symmetry. apply fs_sum_zero.
+      + intros v _. change (diff_poly v (@nil (@mono F))) with (@nil (@mono F)).
+        rewrite fs_compose_nil. ring.
+    - rewrite fs_compose_cons, fs_D_add. unfold fs_mono at 1. rewrite fs_D_scale, fs_D_exps, IH.
+      rewrite (fs_sum_ext
+                 (fun v => fs_mul (fs_compose env (diff_poly v (m :: p)))
+                                  (fs_D (nth v env (fs_const 0))))
+                 (fun v => fs_add
+                             (fs_mul (fs_const (fst m))
+                                     (fs_mul (dexps env (snd m) v) (fs_D (nth v env (fs_const 0)))))
+                             (fs_mul (fs_compose env (diff_poly v p))
+                                     (fs_D (nth v env (fs_const 0)))))).
+      2:{ intros v _. unfold diff_poly at 1. simpl flat_map.
+          rewrite fs_compose_app, fs_compose_diff_mono, fs_scale_mul.
+          fold (diff_poly v p). ring. }
+      rewrite fs_sum_add, fs_sum_mul_l, fs_scale_mul. reflexivity.
+  Qed.
+End SeriesCompose.
